@@ -737,6 +737,40 @@ pub async fn run_path(
                 }
             }
             "Quiesce" => {}
+            "HardReset" => {
+                let i = world.device(args[0].as_str().unwrap())?;
+                let remote = world.remote(i, None);
+                let mut outcome = sos_sync::MergeOutcome::default();
+                let r = remote
+                    .folder_hard_conflict(&world.folder, &Default::default(), &mut outcome)
+                    .await;
+                if let Err(e) = r {
+                    out.violation(
+                        format!("step {n} HardReset {args}: force merge of the server's log failed: {e}"),
+                        detail.clone(),
+                    );
+                    failed = true;
+                } else {
+                    nontrivial = true;
+                    // the events only this device held are given up on purpose
+                    let (_, srv) = world.state().await?;
+                    let mut keep = evs(&srv);
+                    for (j, _) in world.devices.iter().enumerate() {
+                        if j != i {
+                            keep.extend(evs(&world.project(&world.device_records(j).await?)));
+                        }
+                    }
+                    world.committed.retain(|t| keep.iter().any(|k| k == t));
+                    let mut c02 = Vec::new();
+                    world.check_c02(i, &mut c02).await?;
+                    if prop == "C02" || prop == "C05" {
+                        for p in c02 {
+                            out.violation(format!("{p} (after step {n} HardReset {args})"), detail.clone());
+                            failed = true;
+                        }
+                    }
+                }
+            }
             "Sync" => {
                 let i = world.device(args[0].as_str().unwrap())?;
                 let (res, route) = world.sync(i).await;
